@@ -112,7 +112,7 @@ def _poke(tab, n):
 def obs_table(tab, gets=()):
     if gets:
         _poke(tab, gets[0])
-    return {'num': run_impl(tab.num_relocations), 'is_rela': tab.is_RELA(),
+    return {'num': run_impl(lambda: tab.num_relocations()), 'is_rela': tab.is_RELA(),
             'entries': run_impl(lambda: [canon(r.entry) for r in tab.iter_relocations()]),
             'get': [run_impl(lambda n=n: canon(tab.get_relocation(n).entry)) for n in gets]}
 
@@ -122,7 +122,7 @@ def obs_relr(tab, poke=None):
         _poke(tab, poke)
     offs = run_impl(lambda: [r['r_offset'] for r in tab.iter_relocations()])
     # num_relocations caches list(iter_relocations()); ask a fresh object state: the cache is only set on success
-    return {'offsets': offs, 'num': run_impl(tab.num_relocations)}
+    return {'offsets': offs, 'num': run_impl(lambda: tab.num_relocations())}
 
 
 def open_elf(data):
@@ -659,6 +659,15 @@ def eval_apply(ctx, reqs):
 
         def impl_fn(data=data, relocate=req['relocate'], attr=SEC_ATTR[req['secname']]):
             ef = open_elf(data)
+            # get_dwarf_info may be called again on one ELFFile, with either flag: an earlier call must not show in a
+            # later one (a seeded per-file cache of the loaded sections, filled before relocation patches the stream in
+            # place, was missed while every file object was asked once).  Content-derived, so a replay is exact.
+            mode = (len(data) + sum(data[-16:])) % 3
+            if mode:
+                try:
+                    ef.get_dwarf_info(relocate_dwarf_sections=(relocate if mode == 1 else not relocate), follow_links=False)
+                except Exception:       # noqa: BLE001
+                    pass
             di = ef.get_dwarf_info(relocate_dwarf_sections=relocate, follow_links=False)
             return canon(getattr(di, attr).stream.getvalue())
         impl = run_impl(impl_fn)
